@@ -1,8 +1,9 @@
 import Driver.Common
 import ScionTime.Model.ClientNtp
 import ScionTime.Model.ClientFlow
+import ScionTime.Model.ClientTail
 import Driver.MainCtorOps
-open Driver ScionTime.Time64 ScionTime.NtpMath ScionTime.ClientNtp ScionTime.ClientFlow
+open Driver ScionTime.Time64 ScionTime.NtpMath ScionTime.ClientNtp ScionTime.ClientFlow ScionTime.ClientTail
 
 /-! Driver for the NTP client model (properties C03 and C05; harness command `c03`).
 ops:
@@ -22,6 +23,15 @@ ops:
                                           timestamps are assumed; events d:…:<kernel rx|->:… / s:…:<kernel rx|->:… / e / f)
   cli.wrapx tr=ip|scion il= att=<l|c|x>/<attempt>,… [coll=<b>]
                                       -> ok <tag> reqs=<n> | err <kind> reqs=<n>   (attempt wrappers over the context state per attempt; reqs = requests that left the host)
+  cli.hexch <as cli.exch> hist=<limit µs|->
+                                      -> ok accept off= ts= [tuple=] prev= | err hist [tuple=] prev= | err <kind> prev=
+                                         (the whole call incl. the statements behind ValidateResponseTimestamps:
+                                          prev update, Filter.Do, Histogram.RecordValue — Model/ClientTail.lean)
+  cli.hist new=<lo>,<hi>,<sig> limit=<µs> rtd=<ns>   -> ok <RecordValue(rtd.Microseconds()) == nil>
+  cli.hdr dscp= lia= lip=x<hex> ria= rip=x<hex> lport= rport= path=<SetPath ok> auth=<b>
+                                      -> ok tc= sia= dia= src=t<type>x<hex> dst=t<type>x<hex> sp= dp= nh= kl=x<hex> kr=x<hex>
+                                         | panic explicit:unexpected_address_type | panic setpath | err addr
+  cli.pool retry=<b> pool=[tags] ds=<auth>:<origin>:[tags];…   -> ok pool=[tags] past=<b>
   cli.ntsdest tr=ip|scion|scion-local parsed=x<16 bytes>|- port= reach=
                                       -> ok sent=x<ip>:<port>|- res=fail   (destination of the NTS-protected request)
 -/
@@ -245,6 +255,100 @@ def parseAttemptIn? (s : String) : Option AttemptIn :=
 
 def kvs (toks : List String) (keys : List String) : Option (List String) := keys.mapM (kv? toks)
 
+/-! ### ops over Model/ClientTail.lean -/
+
+def fmtSample (o : Option Sample) : String :=
+  match o with
+  | some (a, b, c, d) => s!" tuple={a},{b},{c},{d}"
+  | none => ""
+
+def fmtTail (o : TailOut) : String :=
+  match o.result with
+  | .blocked => "blocked"
+  | .panic => "panic explicit:unexpected_system_clock_behavior"
+  | .err e => s!"err {errName e} prev={fmtPrev o.prev}"
+  | .errHist => s!"err hist{fmtSample o.absorbed} prev={fmtPrev o.prev}"
+  | .ok ts off => s!"ok accept off={off.toInt} ts={ts}{fmtSample o.absorbed} prev={fmtPrev o.prev}"
+
+/-- `-` or the histogram's limit -/
+def parseHist? (s : String) : Option (Option Hist) :=
+  if s = "-" then some none else s.toNat?.map fun n => some ⟨n⟩
+
+def fmtHost (h : HostAddr) : String := s!"t{h.type}x{toHex h.raw}"
+
+def parseXIP? (s : String) : Option (List Nat) :=
+  if s.startsWith "x" then parseHex? (s.drop 1).toString else none
+
+/-- `<auth>:<origin>:[tags]` -/
+def parsePDgram? (s : String) : Option PDgram :=
+  match s.splitOn ":" with
+  | [a, o, cs] =>
+    match parseBool? a, parseBool? o, parseIntList? cs with
+    | some a, some o, some cs => some ⟨a, cs.map Int.toNat, o⟩
+    | _, _, _ => none
+  | _ => none
+
+def tailStep (toks : List String) : Option String :=
+  match toks with
+  | "cli.hexch" :: rest =>
+    match kvs rest ["tr", "il", "dl", "filt", "ref", "prev", "now", "ctx1", "ev", "nts", "hist"] with
+    | some [tr, il, dl, filt, ref, prev, now, ctx1, ev, nts, hist] =>
+      match parseTr? tr, parseBool? il, parseBool? dl, parseOptInt? filt, refName ref, parsePrev? prev,
+            parseInt? now, parseInt? ctx1, parseBool? nts, parseHist? hist with
+      | some tr, some il, some dl, some filt, some ref, some prev, some now, some ctx1, some nts, some hist =>
+        if ref = "" then some "bad-op" else
+        let cfg : Cfg := ⟨tr, il, nts, dl⟩
+        let filter := filt.map fun v => (fun (_ _ _ _ : Int) => Int64.ofInt v)
+        match tr with
+        | .ip =>
+          if rest.length ≠ 12 then some "bad-op" else
+          match (kv? rest "server").bind (·.toNat?), parseEvs? parseEvIP? ev with
+          | some server, some evs => some (fmtTail (exchangeIPH cfg hist filter server prev ref now ctx1 evs))
+          | _, _ => some "bad-op"
+        | .scion =>
+          if rest.length ≠ 16 then some "bad-op" else
+          match (kvs rest ["ria", "lia"]).bind (·.mapM (·.toNat?)),
+                (kvs rest ["rhost", "lhost"]).bind (·.mapM parseIPBytes?),
+                (kv? rest "key").bind parseBool?, parseEvs? parseEvSCION? ev with
+          | some [ria, lia], some [rhost, lhost], some key, some evs =>
+            some (fmtTail (exchangeSCIONH cfg hist filter ⟨ria, rhost, lia, lhost, key⟩ prev ref now ctx1 evs))
+          | _, _, _, _ => some "bad-op"
+      | _, _, _, _, _, _, _, _, _, _ => some "bad-op"
+    | _ => some "bad-op"
+  | ["cli.hist", nw, limit, rtd] =>
+    match kv? [nw] "new", (kv? [limit] "limit").bind (·.toNat?), (kv? [rtd] "rtd").bind parseInt? with
+    | some nw, some limit, some rtd =>
+      if rtd < -9223372036854775808 ∨ rtd > 9223372036854775807 then some "bad-op"
+      -- the benchmark tools' histogram: its limit is a constant of the model
+      else if nw = "1,50000,5" ∧ limit ≠ benchmarkHist.limit then some "bad-op"
+      else some s!"ok {(Hist.mk limit).recordOk (Int64.ofInt rtd)}"
+    | _, _, _ => some "bad-op"
+  | "cli.hdr" :: rest =>
+    if rest.length ≠ 9 then some "bad-op" else
+    match (kvs rest ["dscp", "lia", "ria", "lport", "rport"]).bind (·.mapM (·.toNat?)),
+          (kvs rest ["lip", "rip"]).bind (·.mapM parseXIP?),
+          (kvs rest ["path", "auth"]).bind (·.mapM parseBool?) with
+    | some [dscp, lia, ria, lport, rport], some [lip, rip], some [path, auth] =>
+      if dscp ≥ 256 then some "bad-op" else
+      match mkScionRequestHeader dscp lia lip ria rip lport rport path auth with
+      | .errAddr => some "err addr"
+      | .panicAddr => some "panic explicit:unexpected_address_type"
+      | .panicSetPath => some "panic setpath"
+      | .panicDSCP => some "panic explicit:invalid_argument:_dscp_must_not_be_greater_than_63"
+      | .hdr h =>
+        let k (o : Option (List Nat)) : String := match o with | some b => "x" ++ toHex b | none => "-"
+        some s!"ok tc={h.trafficClass} sia={h.srcIA} dia={h.dstIA} src={fmtHost h.src} dst={fmtHost h.dst} sp={h.srcPort} dp={h.dstPort} nh={h.nextHdr} kl={k (drkeyHostOfIP lip)} kr={k (drkeyHostOfIP (held rip))}"
+    | _, _, _ => some "bad-op"
+  | ["cli.pool", retry, pool, ds] =>
+    match (kv? [retry] "retry").bind parseBool?, (kv? [pool] "pool").bind parseIntList?,
+          (kv? [ds] "ds").bind (fun s => if s = "-" then some [] else (s.splitOn ";").mapM parsePDgram?) with
+    | some retry, some pool, some ds =>
+      if pool.isEmpty then some "bad-op" else
+      let r := poolExchange retry (pool.map Int.toNat) ds
+      some s!"ok pool={fmtNatList r.1} past={r.2}"
+    | _, _, _ => some "bad-op"
+  | _ => none
+
 def step (_ : Unit) (toks : List String) : Unit × String := Id.run do
   match toks with
   | "ntp.off" :: rest =>
@@ -417,6 +521,9 @@ def step (_ : Unit) (toks : List String) : Unit × String := Id.run do
       if localAddrOk n then return ((), "bad-op") else return ((), "err addr")
     | _, _ => return ((), "bad-op")
   | _ =>
+    match tailStep toks with
+    | some a => return ((), a)
+    | none =>
     -- main.* : constructors / NTS configuration of timeservice.go (harness cmain, part ctor)
     match mainCtorStep toks with
     | some a => return ((), a)
